@@ -1077,9 +1077,213 @@ def functional_cases(rng, tier):
     return cs
 
 
+# ---- functional trees from recipes: the model term is what was WRITTEN (constructors and overloads),
+# not what the object's attributes say after the merging done by the constructors
+F_UNARY = ['lscal', 'rscal', 'mul', 'rmul', 'div', 'neg', 'ssum', 'addc', 'transl', 'translated', 'qp', 'rvec', 'mulv']
+F_BINARY = ['sum', 'add', 'sub', 'prod', 'quot']
+
+
+def fbuild(r, X):
+    import odl
+    import odl.solvers as S
+    Fm = odl.solvers.functional.functional
+    k = r[0]
+    el = lambda v: X.element(np.asarray(v, dtype=float).reshape(X.shape))
+    if k == 'l2sq':
+        return S.L2NormSquared(X)
+    if k == 'l2':
+        return S.L2Norm(X)
+    if k == 'l1':
+        return S.L1Norm(X)
+    if k == 'const':
+        return S.ConstantFunctional(X, r[1])
+    if k == 'zero':
+        return S.ZeroFunctional(X)
+    if k == 'rosen':
+        return S.RosenbrockFunctional(X, scale=r[1])
+    if k == 'l2sqconj':
+        return S.L2NormSquared(X).convex_conj
+    if k == 'conj':
+        return fbuild(r[1], X).convex_conj
+    if k == 'compm':
+        m = len(r[2])
+        Y = odl.rn(m)
+        return Fm.FunctionalComp(fbuild(r[1], Y), odl.MatrixOperator(np.asarray(r[2], dtype=float), domain=X, range=Y))
+    f = fbuild(r[1], X)
+    if k == 'lscal':
+        return Fm.FunctionalLeftScalarMult(f, r[2])
+    if k == 'rscal':
+        return Fm.FunctionalRightScalarMult(f, r[2])
+    if k == 'mul':
+        return f * r[2]
+    if k == 'rmul':
+        return r[2] * f
+    if k == 'div':
+        return f / r[2]
+    if k == 'neg':
+        return -f
+    if k == 'ssum':
+        return Fm.FunctionalScalarSum(f, r[2])
+    if k == 'addc':
+        return f + r[2]
+    if k == 'transl':
+        return Fm.FunctionalTranslation(f, el(r[2]))
+    if k == 'translated':
+        return f.translated(el(r[2]))
+    if k == 'qp':
+        return Fm.FunctionalQuadraticPerturb(f, r[2], None if r[3] is None else el(r[3]), r[4])
+    if k == 'rvec':
+        return Fm.FunctionalRightVectorMult(f, el(r[2]))
+    if k == 'mulv':
+        return f * el(r[2])
+    g = fbuild(r[2], X)
+    if k == 'sum':
+        return Fm.FunctionalSum(f, g)
+    if k == 'add':
+        return f + g
+    if k == 'sub':
+        return f - g
+    if k == 'prod':
+        return Fm.FunctionalProduct(f, g)
+    if k == 'quot':
+        return Fm.FunctionalQuotient(f, g)
+    raise ValueError('unknown functional recipe %r' % (k,))
+
+
+def fterm(r, n):
+    """the fexpr term of the functional AS WRITTEN in the recipe"""
+    k = r[0]
+    if k == 'l2sq':
+        return '(FL2Sq %d)' % n
+    if k == 'l2':
+        return '(FL2 %d)' % n
+    if k == 'l1':
+        return '(FL1 %d)' % n
+    if k == 'const':
+        return '(FConst %d %s)' % (n, C.q(r[1]))
+    if k == 'zero':
+        return '(FConst %d %s)' % (n, C.q(0.0))
+    if k == 'rosen':
+        return '(FRosen %d %s)' % (n, C.q(r[1]))
+    if k in ('l2sqconj', 'conj'):
+        raise Unsupported('convex conjugates are not modelled')
+    if k == 'compm':
+        m = len(r[2])
+        return '(FCompM %s %s %d %s)' % (fterm(r[1], m), C.qs([1.0] * m), n, C.qss(r[2]))
+    t = fterm(r[1], n)
+    if k in ('lscal', 'rmul'):
+        return '(FLScal %s %s)' % (t, C.q(r[2]))
+    if k == 'neg':
+        return '(FLScal %s %s)' % (t, C.q(-1.0))
+    if k in ('rscal', 'mul'):
+        return '(FRScal %s %s)' % (t, C.q(r[2]))
+    if k == 'div':
+        return '(FRScal %s %s)' % (t, C.q(1.0 / r[2]))
+    if k in ('ssum', 'addc'):
+        return '(FScalarSum %s %s)' % (t, C.q(r[2]))
+    if k in ('transl', 'translated'):
+        return '(FTransl %s %s)' % (t, C.qs(r[2]))
+    if k == 'qp':
+        return '(FQP %s %s %s %s)' % (t, C.q(r[2]), C.qs([0.0] * n if r[3] is None else r[3]), C.q(r[4]))
+    if k in ('rvec', 'mulv'):
+        return '(FRVec %s %s)' % (t, C.qs(r[2]))
+    u = fterm(r[2], n)
+    if k in ('sum', 'add'):
+        return '(FSum %s %s)' % (t, u)
+    if k == 'sub':
+        return '(FSum %s (FLScal %s %s))' % (t, u, C.q(-1.0))
+    if k == 'prod':
+        return '(FProd %s %s)' % (t, u)
+    if k == 'quot':
+        return '(FQuot %s %s)' % (t, u)
+    raise ValueError(k)
+
+
+def fgen_recipe(rng, n, depth, last=None, exact=True, rosen_ok=True, vec=None, compm_ok=True):
+    """random functional recipe on a space of size n; the constructor/overload of the parent is REPEATED in
+    direct succession with probability 0.45 ((f*a)*b, a*(b*f), translations of translations, sums of sums, ...).
+    exact: only leaves whose values are rational at rational points (for the run at Q)."""
+    vec = vec or (lambda zero_ok=True: rvec(rng, n, zero_ok=zero_ok))
+    if depth <= 0 or (last is None and rng.random() < 0.1):
+        leaves = ['l2sq', 'l2sq', 'l1', 'const', 'zero'] + (['rosen'] if rosen_ok and n >= 2 else [])
+        if not exact:
+            leaves += ['l2', 'l2', 'l2sqconj']
+        k = rng.choice(leaves)
+        if k == 'const':
+            return (k, rng.choice([2.0, -1.0, 0.5]))
+        if k == 'rosen':
+            return (k, rng.choice([1.0, 2.0, 0.5, 3.0]))
+        return (k,)
+    d = depth - 1
+    if last is not None and rng.random() < 0.45 and (compm_ok or last != 'compm'):
+        k = last
+    else:
+        k = rng.choice(F_UNARY + F_BINARY + (['compm'] if compm_ok else []))
+    sc = rng.choice([2.0, -1.0, 0.5, 3.0, -2.0, 4.0])
+    sub = lambda: fgen_recipe(rng, n, d, k, exact, rosen_ok, vec, compm_ok)
+    if k in ('lscal', 'rscal', 'mul', 'rmul', 'ssum', 'addc'):
+        return (k, sub(), sc)
+    if k == 'div':
+        return (k, sub(), rng.choice([2.0, 4.0, 0.5, -2.0]))
+    if k == 'neg':
+        return (k, sub())
+    if k in ('transl', 'translated'):
+        return (k, sub(), vec())
+    if k == 'qp':
+        return (k, sub(), rng.choice([0.0, 1.0, -0.5, 2.0]), vec() if rng.random() < 0.8 else None, rng.choice([0.0, 1.0, -2.0]))
+    if k in ('rvec', 'mulv'):
+        return (k, sub(), vec(False))
+    if k in ('sum', 'add', 'sub', 'prod'):
+        return (k, sub(), sub())
+    if k == 'quot':
+        return (k, sub(), ('ssum', ('l2sq',), rng.choice([1.0, 2.0])))
+    m = rng.choice([1, 2, 3])
+    return ('compm', fgen_recipe(rng, m, d, k, exact, True, None), [rvec(rng, n) for _ in range(m)])
+
+
+def functional_recipe_cases(rng, tier):
+    import odl
+    cs = C.CaseSet('functionals_as_written', ['C06.Syntax', 'Gen.UfuncDeriv', 'C06.Model', 'C06.FModel', 'C06.Corr'],
+                   'fcheck', 'fcase')
+    n_cases = 300 if tier == 'quick' else 2000
+    maxd = 4 if tier == 'quick' else 6
+    tries = 0
+    while len(cs.cases) < n_cases and tries < 30 * n_cases:
+        tries += 1
+        nn = rng.choice([1, 2, 2, 3])
+        X = rng.choice([odl.rn(nn), odl.rn(nn), odl.rn(nn, weighting=rng.choice([2.0, 0.5, 4.0])),
+                        odl.rn(nn, weighting=[rng.choice([1.0, 2.0, 0.5]) for _ in range(nn)]),
+                        odl.uniform_discr(0, nn / 4.0, nn)])
+        rec = fgen_recipe(rng, nn, rng.randint(2, maxd))
+        try:
+            with np.errstate(all='ignore'):
+                f = fbuild(rec, X)
+                x = X.element(rvec(rng, X.size, zero_ok=False))
+                d = X.element(rvec(rng, X.size))
+                e = fterm(rec, nn)
+                val = float(f(x))
+                grad = vals(f.gradient(x))
+                D = f.derivative(x)
+                dd = float(D(d))
+                inner = (type(D).__name__ == 'InnerProductOperator' and
+                         bool(np.allclose(vals(D.vector), grad, rtol=1e-12, atol=1e-12)))
+                if not _finite_small([val, dd] + grad):
+                    continue
+                term = ('{| f_e := %s; f_w := %s; f_mav := %s; f_x := %s; f_d := %s; f_val := %s; '
+                        'f_grad := %s; f_dd := %s; f_inner := %s |}'
+                        % (e, C.qs(wts(X)), C.b(functional_variants()), C.qs(vals(x)), C.qs(vals(d)), C.q(val),
+                           C.qs(grad), C.q(dd), C.b(inner)))
+        except (ValueError, OverflowError, ZeroDivisionError):
+            continue
+        if len(term) > 60000:
+            continue
+        cs.add(term, {'recipe': repr(rec)[:400], 'space': repr(X), 'x': vals(x), 'd': vals(d)}, (term,))
+    return cs
+
+
 def correspondence(rng, tier):
     return [tree_cases(rng, tier), block_cases(rng, tier), norm_cases(rng, tier), ufunc_cases(rng, tier),
-            functional_cases(rng, tier)]
+            functional_cases(rng, tier), functional_recipe_cases(rng, tier)]
 
 
 # =====================================================================  probes
@@ -1815,15 +2019,160 @@ def history_probes(rng, tier):
     return out
 
 
+# ---- functional trees with repeated constructors, on the real objects ------------------------------
+def functional_probe_one(rec, skey, xv, dv):
+    sp = space_of(skey)
+    try:
+        f = fbuild(rec, sp)
+    except NotImplementedError as e:              # e.g. no convex conjugate for this tree
+        return None, 'construction raises %s' % type(e).__name__
+    return cd_check(f, _el(sp, xv), _el(sp, dv))
+
+
+def functional_tree_probes(rng, tier):
+    out = []
+    n = 250 if tier == 'quick' else 2000
+    maxd = 4 if tier == 'quick' else 6
+    tries = 0
+    while len(out) < n and tries < 30 * n:
+        tries += 1
+        skey = rng.choice(['rn2', 'rn3', 'rn3c', 'rn3w', 'discr4', 'discr23'])
+        sp = space_of(skey)
+        vec = lambda zero_ok=True: rnd_vals(rng, sp.size, away=0.0 if zero_ok else 0.3)
+        rec = fgen_recipe(rng, sp.size, rng.randint(2, maxd), exact=False, rosen_ok=(sp.ndim == 1), vec=vec,
+                          compm_ok=skey in ('rn2', 'rn3'))    # weighted domains: the recorded MatrixOperator.adjoint finding
+        if rng.random() < 0.15:
+            rec = ('conj', rec)
+        xv = rnd_vals(rng, sp.size, away=0.3)
+        dv = rnd_vals(rng, sp.size)
+        key = 'functional-tree-%s-%s' % (rec[0], skey)
+        try:
+            with np.errstate(all='ignore'):
+                ok, detail = functional_probe_one(rec, skey, xv, dv)
+        except Exception as e:
+            if rec[0] == 'conj':
+                continue                          # conjugates exist for few trees only
+            ok, detail = False, 'raised %s: %s' % (type(e).__name__, str(e)[:200])
+        if ok is None:
+            continue
+        if not ok and 'compm' in classes_in(rec) and skey in ('rn3c', 'rn3w', 'discr4', 'discr23'):
+            key = 'FunctionalComp-MatrixOperator-weighted-space'
+        rp = REPLAY_HEAD + "ok, observed = H.functional_probe_one(%r, %r, %r, %r)\nok = bool(ok)\n" % (rec, skey, xv, dv)
+        out.append(C.Probe(bool(ok), key, 'central differences vs Functional.derivative on a functional tree (%s) over %s'
+                           % (','.join(sorted(classes_in(rec))), skey), rp, detail))
+    return out
+
+
+# ---- the point is updated IN PLACE between calls: results must belong to the new value -------------
+INPLACE_PRE = ['op(x)', 'op(x,out)', 'op.derivative(x)', 'op.derivative(x)(d)']
+INPLACE_HOW = ['iadd', 'lincomb', 'setitem', 'assign', 'imul']
+INPLACE_ROOTS = ['sum', 'vecsum', 'comp', 'pprod', 'lscal', 'rscal', 'lvec', 'rvec', 'ovl', 'pwnorm', 'pwinner', 'uf', 'pow',
+                 'cubic', 'norm', 'dist']
+
+
+def inplace_check(rec, skey, x0v, xv, dv, pre, how, first='derivative'):
+    """x is an element holding x0v; calls on (op, x); x is overwritten in place with xv; then op(x) must be the
+    value at xv and op.derivative(x) the central-difference limit at xv"""
+    sp = space_of(skey)
+    op = build(rec)
+    x, d = _el(sp, x0v), _el(sp, dv)
+    with np.errstate(all='ignore'):
+        for a in pre:
+            try:
+                if a == 'op(x)':
+                    op(x)
+                elif a == 'op(x,out)':
+                    op(x, out=op.range.element())
+                elif a == 'op.derivative(x)':
+                    op.derivative(x)
+                elif a == 'op.derivative(x)(d)':
+                    op.derivative(x)(d)
+            except NotImplementedError:
+                pass
+            except ValueError as e:
+                if 'not differentiable' not in str(e):
+                    raise
+        new = _el(sp, xv)
+        if how == 'iadd':
+            x += new - x
+        elif how == 'lincomb':
+            x.lincomb(0.0, x, 1.0, new)
+        elif how == 'setitem':
+            x[:] = np.asarray(new)
+        elif how == 'assign':
+            x.assign(new)
+        elif how == 'imul':                       # x *= new / x  (entries of x0 are never 0)
+            x *= new / x
+        D = None
+        if first == 'derivative':                 # the derivative is asked for BEFORE any new evaluation
+            try:
+                D = op.derivative(x)
+            except NotImplementedError as e:
+                return None, 'raises %s' % type(e).__name__
+            except ValueError as e:
+                if 'not differentiable' in str(e):
+                    return None, 'documented non-differentiable point'
+                raise
+        v = _flat(op(x))
+        ref = _flat(build(rec)(x.copy()))
+        if np.all(np.isfinite(ref)) and not np.allclose(v, ref, rtol=1e-12, atol=1e-12 * max(1.0, float(np.max(np.abs(ref))) if ref.size else 1.0)):
+            return False, 'after %s and the in-place update (%s) op(x) = %s, a fresh operator gives %s' % (pre, how, v.tolist(), ref.tolist())
+        ok, detail = cd_check(op, x, d, D=D)
+        return ok, detail + ' (after %s and the in-place update %s of x, %s first)' % (pre, how, first)
+
+
+def inplace_probes(rng, tier):
+    out = []
+    n = 250 if tier == 'quick' else 2000
+    maxd = 3 if tier == 'quick' else 4
+    tries = 0
+    while len(out) < n and tries < 30 * n:
+        tries += 1
+        skey = rng.choice(sorted(SPACES))
+        sp = space_of(skey)
+        if tries % 2:                             # every class in turn at the root of a shallow tree: x itself reaches it
+            target = INPLACE_ROOTS[(tries // 2) % len(INPLACE_ROOTS)]
+            for _ in range(60):
+                rec = gen_recipe(rng, skey, rng.randint(1, 2))
+                if rec[0] == target:
+                    break
+        else:
+            rec = gen_recipe(rng, skey, rng.randint(0, maxd))
+        if rng.random() < 0.4:
+            rec = with_tmps(rng, rec)
+        x0v, xv = rnd_vals(rng, sp.size, 0.3, 1.8), rnd_vals(rng, sp.size, 0.3, 1.8)
+        dv = rnd_vals(rng, sp.size)
+        pre = [rng.choice(INPLACE_PRE) for _ in range(rng.randint(1, 3))]
+        if rng.random() < 0.6:
+            pre[0] = 'op(x)'
+        how = rng.choice(INPLACE_HOW)
+        first = rng.choice(['derivative', 'derivative', 'value'])
+        key = 'inplace-%s-%s' % (rec[0] if rec[0] != 'ovl' else 'ovl' + rec[1], skey)
+        try:
+            ok, detail = inplace_check(rec, skey, x0v, xv, dv, pre, how, first)
+        except Exception as e:
+            ok, detail = False, 'raised %s: %s' % (type(e).__name__, str(e)[:200])
+        if ok is None:
+            continue
+        if not ok and 'pwnorm' in classes_in(rec) and skey == 'rn3w' and 'cannot divide' in str(detail):
+            key = 'PointwiseNorm-derivative-array-weighted-base-space'
+        rp = (REPLAY_HEAD + "ok, observed = H.inplace_check(%r, %r, %r, %r, %r, %r, %r, %r)\nok = bool(ok)\n"
+              % (rec, skey, x0v, xv, dv, pre, how, first))
+        out.append(C.Probe(bool(ok), key, 'op(x) / op.derivative(x) after %s and an in-place update (%s) of x, tree (%s) over %s'
+                           % (pre, how, ','.join(sorted(classes_in(rec))), skey), rp, detail))
+    return out
+
+
 def probes(rng, tier):
-    return tree_probes(rng, tier) + catalogue_probes(rng, tier) + ufunc_probes(rng, tier) + history_probes(rng, tier)
+    return (tree_probes(rng, tier) + catalogue_probes(rng, tier) + ufunc_probes(rng, tier) + history_probes(rng, tier)
+            + functional_tree_probes(rng, tier) + inplace_probes(rng, tier))
 
 
 def search(rng, broken):
     """something is broken (translator / proof / correspondence) and the probes of this tier found no input:
     run the probe families at thorough volume, the cheap and targeted ones first"""
     known = C.load_findings(PID)
-    for fam in (ufunc_probes, catalogue_probes, history_probes, tree_probes):
+    for fam in (ufunc_probes, catalogue_probes, functional_tree_probes, inplace_probes, history_probes, tree_probes):
         for p in fam(rng, 'thorough'):
             if not p.ok and p.key not in known:
                 return p
@@ -1855,7 +2204,8 @@ LEVEL_NOTE = ('Validated, not proved: the O(h^2) rate; non-integer powers, Point
               'by central-difference probes on the '
               'real objects; also probed: every ufunc in its operator (rn, cn) and functional (R, C) variants at generic '
               'points, and that D = derivative(x) is unchanged by later calls on the operator and on D (constructors with '
-              'user scratch elements, reference-keeping leaves). Exact arithmetic: rounding out of scope. Six open findings and four repaired ones '
+              'user scratch elements, reference-keeping leaves) and by in-place updates of the point between calls; functional '
+              'trees with repeated constructors/overloads are compared with the model of the expression as written. Exact arithmetic: rounding out of scope. Five open findings and five repaired ones '
               '(findings/C06.json). Axioms: classical reals, funext, classic as printed.')
 TECHNIQUE = ('Coq proof by structural induction over a deep embedding of operator arithmetic (nested lists for block '
              'operators), with a curve-based (Hadamard) and an epsilon-delta (Frechet, in norm) differentiability calculus on R^n '
